@@ -1,6 +1,8 @@
 package rules
 
 import (
+	"sort"
+	"go/types"
 	"go/ast"
 	"go/token"
 	"strings"
@@ -82,7 +84,7 @@ func c06pair(c *core.Ctx) {
 func c06skip(c *core.Ctx) {
 	const R = "C06.skip"
 	c.Rule(R, "recursionChecker.check: the first statement returns nil for optional or nullable nodes (so every recursive call is dominated by that test); array, literal and mixed nodes return nil without recursing; an object recurses into every child and returns the first error (AND); checkMixedValueNode returns an error only when every alternative failed: len(ee) > 0 && len(ee) == len(tt) (OR)")
-	c.Floor(R, 4)
+	c.Floor(R, 6)
 	d := c.P.FindDecl(recPkg + "check")
 	m := c.P.FindDecl(recPkg + "checkMixedValueNode")
 	if d == nil || m == nil {
@@ -166,6 +168,73 @@ func c06skip(c *core.Ctx) {
 		}
 		return true
 	})
+	// every alternative is walked: the loop over the alternatives has no continue/break/return and calls checkType
+	loopOK, loopWhy := false, "no loop over the alternatives calling checkType"
+	ast.Inspect(m.Decl.Body, func(n ast.Node) bool {
+		rs, ok := n.(*ast.RangeStmt)
+		if !ok {
+			return true
+		}
+		calls := false
+		bad := ""
+		ast.Inspect(rs.Body, func(k ast.Node) bool {
+			switch y := k.(type) {
+			case *ast.CallExpr:
+				if core.ExprStr(y.Fun) == "c.checkType" {
+					calls = true
+				}
+			case *ast.BranchStmt:
+				bad = y.Tok.String()
+			case *ast.ReturnStmt:
+				bad = "return"
+			}
+			return true
+		})
+		if calls {
+			loopOK, loopWhy = bad == "", "the loop over the alternatives leaves or skips with `"+bad+"`"
+		}
+		return true
+	})
+	c.Check(loopOK, R, "checkMixedValueNode:every-alternative", c.P.Pos(m.Decl.Pos()), "every alternative of a choice is walked", loopWhy+": an alternative that is skipped counts as finite, so a root that requires itself through it is accepted")
+	// the walk keeps no memory besides the current path: every map of the checker that is
+	// consulted during the walk is path-scoped (its entries are deleted when the type is left)
+	{
+		deleted := map[string]bool{}
+		looked := map[string]string{}
+		for _, fn := range []string{"check", "checkMixedValueNode", "checkType", "visit", "leave"} {
+			fd := c.P.FindDecl(recPkg + fn)
+			if fd == nil {
+				continue
+			}
+			ast.Inspect(fd.Decl.Body, func(n ast.Node) bool {
+				switch y := n.(type) {
+				case *ast.CallExpr:
+					if id, ok := y.Fun.(*ast.Ident); ok && id.Name == "delete" && len(y.Args) == 2 {
+						deleted[core.ExprStr(y.Args[0])] = true
+					}
+				case *ast.IndexExpr:
+					if tv, ok := fd.Pkg.TypesInfo.Types[y.X]; ok {
+						if _, isMap := tv.Type.Underlying().(*types.Map); isMap && strings.HasPrefix(core.ExprStr(y.X), "c.") {
+							looked[core.ExprStr(y.X)] = c.P.Pos(y.Pos())
+						}
+					}
+				}
+				return true
+			})
+		}
+		var ks []string
+		for k := range looked {
+			ks = append(ks, k)
+		}
+		sort.Strings(ks)
+		for _, k := range ks {
+			c.Check(deleted[k], R, "state:"+k, looked[k], "map "+k+" consulted by the recursion walk is path-scoped (entries deleted on leave)",
+				"the walk remembers types beyond the current path (a memo / cache): what an earlier branch concluded - possibly under an alternative whose failure was forgiven - decides a later, mandatory occurrence of the same type")
+		}
+		if len(ks) == 0 {
+			c.Bad(R, "state", pos, "visited set of the recursion walk", "undecided: the walk consults no map")
+		}
+	}
 	c.Check(orOK, R, "checkMixedValueNode:or", c.P.Pos(m.Decl.Pos()), "`@a | @b` fails only if every alternative fails", "the alternative rule is no longer `all alternatives failed`: a choice with one finite alternative is reported, or one with none is accepted")
 }
 
